@@ -656,6 +656,8 @@ def Ctx.opFg (c : Ctx) (sid : Sid) : Ctx :=
   match c.w.sess? sid with
   | none => c
   | some s =>
+    -- the timer is honoured once: a session already in the foreground ignores it (session write loop)
+    if !s.bg then c else
     let c := { c with w := c.w.setSess { s with bg := false } }
     s.subs.foldl (fun c tn =>
       match c.w.live? tn with
